@@ -95,6 +95,7 @@ class CasJsonDeserializer:
         self._max_xmi_id = 0
         self._max_sofa_num = 0
         self._post_processors = []
+        self._member_sofas = {}
 
     def deserialize(
         self,
@@ -111,6 +112,7 @@ class CasJsonDeserializer:
         self._max_xmi_id = 0
         self._max_sofa_num = 0
         self._post_processors = []
+        self._member_sofas = {}
 
         if merge_typesystem:
             json_typesystem = data.get(TYPES_FIELD)
@@ -253,7 +255,12 @@ class CasJsonDeserializer:
         view = self._get_or_create_view(cas, view_name)
         for member_id in json_view[VIEW_MEMBERS_FIELD]:
             fs = feature_structures[member_id]
+            # A structure can be a member of several views: it keeps the sofa the document names for it
+            # (`view.add` points it to the view at hand)
+            own_sofa = self._member_sofas.setdefault(member_id, getattr(fs, "sofa", None))
             view.add(fs, keep_id=True)
+            if own_sofa is not None:
+                fs.sofa = own_sofa
 
     def _parse_sofa(self, cas: Cas, fs_id: int, json_fs: Dict[str, any], feature_structures: Dict[int, any]) -> Sofa:
         view = self._get_or_create_view(
